@@ -26,6 +26,8 @@ const (
 	LFT    = "FT"    // lazy transpose of a column-major base
 	LFS    = "FS"    // unit-step slice of a larger column-major parent
 	LFSS   = "FSS"   // stepped slice of a larger column-major parent
+	LTT    = "TT"    // two stacked lazy transposes (the second one has to move the data of the first)
+	LTF    = "TF"    // Slice() with no (or only full-range) arguments of a lazily transposed tensor: a view of all of it
 	LCSS   = "CSS"   // Clone() of a stepped slice: owns its storage but keeps the view's strides and storage window
 	LSSS   = "SSS"   // unit-step slice of a stepped slice: its storage window is longer than its elements need (ends at the next selected element)
 )
@@ -33,7 +35,7 @@ const (
 // ColViewLayouts are the views over column-major storage (C16).
 var ColViewLayouts = []string{LFT, LFS, LFSS}
 
-var AllLayouts = []string{LC, LF, LFconv, LT, LS, LSS, LMT, LMS, LMSS, LST, LTS, LCSS}
+var AllLayouts = []string{LC, LF, LFconv, LT, LS, LSS, LMT, LMS, LMSS, LST, LTS, LCSS, LTT, LTF}
 
 // RowLayouts are the C06 operand layouts {contiguous, lazily transposed, sliced, step-sliced, materialised}.
 var RowLayouts = []string{LC, LT, LS, LSS, LMS}
@@ -402,6 +404,68 @@ func (op *Operand) build(m *model.ND, layout string, rng *rand.Rand) error {
 		op.keep = append(op.keep, parent)
 		op.Recipe["parent"] = pshape
 		op.Recipe["slices"] = specStrings(mspecs)
+	case LTT:
+		if rank < 3 || len(m.V) < 2 {
+			return degrade()
+		}
+		// base --T(p1)--> --T(p2)--> m, with p1 a rotation (not an involution) and p2 = p1: the library has to compose them
+		p1 := make([]int, rank)
+		for i := range p1 {
+			p1[i] = (i + 1) % rank
+		}
+		mid := model.Permute(m, inv(p1))
+		base := model.Permute(mid, inv(p1))
+		d, b := op.newC(t, base.Shape, base.V)
+		if err := d.T(p1...); err != nil {
+			return err
+		}
+		if err := d.T(p1...); err != nil {
+			return err
+		}
+		op.D, op.Root = d, d
+		// the second transpose moved the data: the storage is whatever the library made of it, so the backing is the tensor's own
+		op.Backing = b
+		if !ShapeEq([]int(d.Shape()), m.Shape) {
+			return fmt.Errorf("stacked transpose produced shape %v, want %v", d.Shape(), m.Shape)
+		}
+		op.Recipe["perm"] = p1
+		op.Recipe["twice"] = true
+		// offsets: read them off the library's strides is not independent; locate each logical element in the backing by value
+		// (values of the operand factories are pairwise distinct ramps where this layout is used)
+		op.Off = make([]int, len(m.V))
+		pos := map[interface{}]int{}
+		for i, v := range model.FromSlice(b) {
+			if _, dup := pos[v]; dup {
+				return degrade()
+			}
+			pos[v] = i
+		}
+		for r, v := range m.V {
+			o, ok := pos[v]
+			if !ok {
+				return degrade()
+			}
+			op.Off[r] = o
+		}
+	case LTF:
+		src, err := BuildWith(m, LT, rng, op.Eng)
+		if err != nil {
+			return err
+		}
+		if src.Layout != LT {
+			return degrade()
+		}
+		v, err := src.D.Slice()
+		if err != nil {
+			return err
+		}
+		vd, ok := v.(*tensor.Dense)
+		if !ok || !ShapeEq([]int(vd.Shape()), m.Shape) {
+			return degrade()
+		}
+		op.D, op.Root, op.Backing, op.Off = vd, src.Root, src.Backing, src.Off
+		op.keep = append(op.keep, src.D)
+		op.Recipe["of"] = src.Recipe
 	case LCSS:
 		src, err := BuildWith(m, LSS, rng, op.Eng)
 		if err != nil {
